@@ -32,6 +32,7 @@ type Ctx struct {
 	Fmts    []string // formats mentioned by the schema
 	Reg     strfmt.Registry
 	CaseIDs bool
+	RefMap  func(ref string) string // optional: maps a $ref to the name of its definition in the encoded root
 }
 
 // PatID interns a pattern and returns its 1-based id. Invalid patterns get a nil matcher.
@@ -309,7 +310,11 @@ func (c *Ctx) Schema(s map[string]interface{}) M {
 	has := []string{}
 	put := func(k string, v interface{}) { o[k] = v; has = append(has, k) }
 	if r, ok := s["$ref"].(string); ok {
-		put("ref", RefName(r))
+		if c.RefMap != nil {
+			put("ref", c.RefMap(r))
+		} else {
+			put("ref", RefName(r))
+		}
 		o["has"] = strs(has)
 		return o
 	}
